@@ -8,7 +8,7 @@ import numpy
 from hypothesis import strategies as st
 
 from pbt import lattice
-from pbt.core import call
+from pbt.core import call, draw_tz
 
 PROP = "C14"
 TECHNIQUE = "Hypothesis-generated catalogs (awkward ids, all ms phases over 1900..2200, extreme / 17-digit doubles) through four write->load round trips compared field by field, bitwise"
@@ -195,7 +195,7 @@ def cases(draw):
             x0, y0 = L._coord(L.lon0, i), L._coord(L.lat0, j)
             e[3] = x0 if fx == 0 else x0 + fx * L.fdh
             e[2] = y0 if fy == 0 else y0 + fy * L.fdh
-    return c
+    return draw_tz(draw, c)
 
 
 def run(ctx):
